@@ -17,6 +17,7 @@ type genOpts struct {
 	MaxWidth  int
 	Escapes   bool // string escapes / non-ASCII
 	BigObject bool // sometimes > 16 keys (ast hash index)
+	BigArray  bool // sometimes 15..50 elements (ast node storage is chunked by 16)
 	Spaces    bool // insignificant whitespace inside
 	DupKeys   bool
 }
@@ -101,6 +102,9 @@ func (g *gen) value(sb *strings.Builder, depth int) {
 		n := g.d(g.o.MaxWidth + 1)
 		if g.o.BigObject && depth <= 1 && g.d(6) == 0 {
 			n = 17 + g.d(8)
+			if g.o.BigArray && g.d(2) == 0 {
+				n = 15 + g.d(36) // across several storage chunks
+			}
 		}
 		sb.WriteByte('{')
 		used := map[string]bool{}
@@ -137,6 +141,9 @@ func (g *gen) value(sb *strings.Builder, depth int) {
 		sb.WriteByte('}')
 	case k < 6: // array
 		n := g.d(g.o.MaxWidth + 1)
+		if g.o.BigArray && depth <= 1 && g.d(6) == 0 {
+			n = 15 + g.d(36)
+		}
 		sb.WriteByte('[')
 		for i := 0; i < n; i++ {
 			if i > 0 {
